@@ -389,6 +389,14 @@ for method in METHODS:
             if q.shape[0] == 0:
                 fail(f"empty:{method}:{name}", "fundamental sample is empty", rep)
                 continue
+            # finite
+            bad = ~np.all(np.isfinite(q), axis=1)
+            if bad.any():
+                fail(f"finite:{method}:{name}", f"{int(bad.sum())} of {len(q)} sampled rotations have NaN / inf components "
+                     f"(first at index {int(np.argmax(bad))})", rep)
+                q = q[~bad]
+                if q.shape[0] == 0:
+                    continue
             # unit
             if np.abs(np.linalg.norm(q, axis=1) - 1).max() > 1e-9:
                 fail(f"unit:{method}:{name}", "sampled rotation is not a unit quaternion", rep)
@@ -579,5 +587,413 @@ for G in S._groups:
             if ang.max() > 1.0 * res:
                 fail(f"reduced:cover:{G.name}", f"sector direction {ang.max():.3f} deg (> 1.0 x {res}) from the nearest "
                      f"R * z", dict(rep, probe=Pv[inside][int(np.argmax(ang))].tolist()))
+
+
+# ================================================================ oracle, second part: secondary entry points,
+# keyword paths and parameter classes that the strata above never reach (coverage audit)
+from orix.sampling import (sample_S2_cube_mesh, sample_S2_equal_area_mesh, sample_S2_hexagonal_mesh,  # noqa: E402
+                           sample_S2_icosahedral_mesh, sample_S2_uv_mesh, uniform_SO3_sample)
+
+E4 = np.array([[1.0, 0, 0, 0]])
+
+
+def so3_sample_checks(q, g, method, cell, sig, rep, dup=True, inside=True, cover=True, mkey=None):
+    """the clauses of the main loop (unit, inside the Voronoi cell of the identity among the rotations g, no two equal
+    rotations, covering radius of the stratified probes <= COVER_C[method] x cell) for ONE sample q (n x 4);
+    `sig(clause)` gives the signature"""
+    if q.shape[0] == 0:
+        fail(sig("empty"), "the sample is empty", rep)
+        return
+    if np.abs(np.linalg.norm(q, axis=1) - 1).max() > 1e-9:
+        fail(sig("unit"), "sampled rotation is not a unit quaternion", rep)
+    if inside:
+        viol = np.abs(q @ g.T).max(1) - np.abs(q[:, 0])
+        i = int(np.argmax(viol))
+        if viol[i] > 1e-7:
+            fail(sig("inside"), f"rotation outside the fundamental zone: a symmetry-equivalent has a smaller angle "
+                 f"(excess {viol[i]:.3g})", dict(rep, q=q[i].tolist()))
+    tree = cKDTree(np.vstack([q, -q]))
+    if dup and q.shape[0] > 1:
+        d, _ = tree.query(q, k=2)
+        i = int(np.argmin(d[:, 1]))
+        if chord2angle(d[i, 1]) < 1e-4:
+            npairs = int(np.sum(chord2angle(d[:, 1]) < 1e-4)) // 2
+            fail(sig("dup"), f"two returned rotations coincide ({npairs} such pair(s) among {q.shape[0]} rotations)",
+                 dict(rep, q=q[i].tolist(), pairs=npairs))
+    if not cover:
+        return
+    bound = COVER_C[method] * cell
+    for stratum, Pq in probes:
+        best = np.full(len(Pq), 10.0)
+        for ge in g:
+            dd, _ = tree.query(qmul(Pq, ge[None, :]))
+            best = np.minimum(best, dd)
+        ang = chord2angle(best)
+        i = int(np.argmax(ang))
+        if mkey:
+            measured[mkey] = max(measured.get(mkey, 0), float(ang[i] / cell))
+        if ang[i] > bound:
+            fail(sig("cover"), f"orientation (stratum {stratum}) is {ang[i]:.2f} deg from the nearest grid point or "
+                 f"symmetry-equivalent: more than {COVER_C[method]} x the grid's nominal cell {cell:.2f} deg",
+                 dict(rep, probe=Pq[i].tolist()))
+            break
+
+
+def same_rotation_set(a, b, tol=1e-7):
+    """every row of a equals some row of +-b and conversely (sets of rotations, multiplicities ignored)"""
+    if a.shape[0] == 0 or b.shape[0] == 0:
+        return a.shape[0] == b.shape[0]
+    da, _ = cKDTree(np.vstack([b, -b])).query(a)
+    db, _ = cKDTree(np.vstack([a, -a])).query(b)
+    return bool(da.max() < tol and db.max() < tol)
+
+
+def cubo_res_of(N):
+    """the resolution whose semi-edge step count is N (inverse of Eq. (9) of Singh & De Graef)"""
+    return 131.97049 / N + 0.03732
+
+
+# ---- (A) uniform_SO3_sample, the public SO(3) entry, with unique = True (its default; get_sample_fundamental always passes
+# unique=False, so the `if unique:` branches are reached from here only), unique = False, method omitted, and the
+# semi_edge_steps keyword: unit, no duplicates (unique != False), covers SO(3), and is the same SET of rotations as the
+# fundamental sample of point group 1 (whose zone is all of SO(3))
+for method in METHODS:
+    for res in ([12.0, 9.0] if TIER == "quick" else [12.0, 9.0, 7.0, 5.0]):
+        ref = get_sample_fundamental(res, point_group=S.C1, method=method).data.reshape(-1, 4)
+        for uq in ("default", True, False):
+            kw = {} if uq == "default" else {"unique": uq}
+            rot = uniform_SO3_sample(res, method=method, **kw)
+            st(f"oracle/uniform-so3/{method}")
+            rep = {"call": f"uniform_SO3_sample({res}, method={method!r}" + "".join(f", {k}={v}" for k, v in kw.items()) + ")"}
+            q = rot.data.reshape(-1, 4)
+            if rot.ndim != 1:
+                fail(f"uniform-so3:shape:{method}", f"sample has shape {rot.shape}, not 1-D", rep)
+            so3_sample_checks(q, E4, method, so3_cell(method, res), lambda c, m=method, u=uq: f"uniform-so3:{c}:{m}" + ("" if c == "dup" else f":unique={u}"),
+                              rep, dup=(uq is not False or method == "cubochoric"), inside=False,
+                              mkey=f"cover/uniform-so3/{method}/res={res}")
+            if not same_rotation_set(q, ref):
+                fail(f"uniform-so3:vs-fundamental:{method}:unique={uq}", f"the set of rotations ({q.shape[0]} rows) differs from "
+                     f"get_sample_fundamental({res}, point_group=C1, method={method!r}) ({ref.shape[0]} rows)", rep)
+            if uq is True:
+                d0 = uniform_SO3_sample(res, method=method).data.reshape(-1, 4)
+                if d0.shape != q.shape or not np.array_equal(d0, q):
+                    fail(f"uniform-so3:default-unique:{method}", "unique omitted differs from unique=True", rep)
+    st("oracle/uniform-so3/keywords")
+    if method == "cubochoric":
+        a = uniform_SO3_sample(9.0).data
+        b = uniform_SO3_sample(9.0, method="cubochoric").data
+        if a.shape != b.shape or not np.array_equal(a, b):
+            fail("uniform-so3:default-method", "uniform_SO3_sample(9.0) differs from method='cubochoric'",
+                 {"call": "uniform_SO3_sample(9.0)"})
+        for N in (6, 9, 14):
+            a = uniform_SO3_sample(77.0, semi_edge_steps=N).data
+            b = cubochoric_sampling(semi_edge_steps=N).data
+            st("oracle/uniform-so3/keywords")
+            if a.shape != b.shape or not np.array_equal(a, b):
+                fail("uniform-so3:semi_edge_steps", f"uniform_SO3_sample(77.0, semi_edge_steps={N}) is not the cubochoric grid "
+                     f"with N = {N} ({a.shape[0]} rows instead of {b.shape[0]})",
+                     {"call": f"uniform_SO3_sample(77.0, semi_edge_steps={N})"})
+
+# ---- (B) get_sample_fundamental at further resolutions (cubochoric N even: 12, 14; the main loop has N = 11, 17 only;
+# three-uniform n = 24, 33, 38, 52; Haar n = 24, 34, 38, 52) and, in the quick tier too, for the other settings 211, 121,
+# 321, 312 of the proper groups.  Cycled: every group meets every method, the resolution rotates with (group, method)
+XRES = [15.0, 11.0, 9.5, 7.0]
+xi = 0
+for gi, (name, G) in enumerate(PROPER11 + EXTRA_SETTINGS):
+    for mi, method in enumerate(METHODS):
+        if TIER == "quick" and gi < len(PROPER11) and (gi + mi) % 3 != 0:
+            continue
+        res = XRES[(gi + 2 * mi) % 4]
+        # the forms of the resolution argument cycle too: float, python int, numpy float32 / int64 (equal values)
+        form = xi % 4
+        xi += 1
+        if form == 1 and res == int(res):
+            arg, argtxt = int(res), str(int(res))
+        elif form == 2 and res == int(res):
+            arg, argtxt = np.int64(res), f"np.int64({int(res)})"
+        elif form == 3:
+            arg, argtxt = np.float32(res), f"np.float32({res})"
+        else:
+            arg, argtxt = res, str(res)
+        rot = get_sample_fundamental(arg, point_group=G, method=method)
+        st(f"oracle/fund-more-resolutions/{method}")
+        rep = {"call": f"get_sample_fundamental({argtxt}, point_group={name}, method={method!r})"}
+        so3_sample_checks(rot.data.reshape(-1, 4), G.data.reshape(-1, 4), method, so3_cell(method, res),
+                          lambda c, m=method, nm=name: f"{c}:{m}:{nm}", rep, mkey=f"cover/more-resolutions/{method}/res={res}")
+
+# ---- (C) keyword / argument paths of get_sample_fundamental: method omitted (cubochoric), semi_edge_steps= forwarded to
+# the cubochoric grid (the resolution argument is then irrelevant), both point_group and space_group given (the point
+# group is used), positional arguments; each against the primary call
+CF_GROUPS = [PROPER11[i] for i in (1, 4, 8, 10)]      # 2, 422, 622, 432
+for k, (name, G) in enumerate(CF_GROUPS):
+    st("oracle/fund-call-forms", 4)
+    base = get_sample_fundamental(15.0, point_group=G, method="cubochoric").data
+    a = get_sample_fundamental(15.0, point_group=G).data
+    if a.shape != base.shape or not np.array_equal(a, base):
+        fail(f"fund-call-form:default-method:{name}", "method omitted differs from method='cubochoric'",
+             {"call": f"get_sample_fundamental(15.0, point_group={name})"})
+    a = get_sample_fundamental(15.0, G, None, "cubochoric").data
+    if a.shape != base.shape or not np.array_equal(a, base):
+        fail(f"fund-call-form:positional:{name}", "positional arguments differ from keywords",
+             {"call": f"get_sample_fundamental(15.0, {name}, None, 'cubochoric')"})
+    N = [9, 12, 6, 14][k]
+    a = get_sample_fundamental([2.0, 33.0, 0.5, 15.0][k], point_group=G, semi_edge_steps=N)
+    rep = {"call": f"get_sample_fundamental({[2.0, 33.0, 0.5, 15.0][k]}, point_group={name}, semi_edge_steps={N})"}
+    b = get_sample_fundamental(cubo_res_of(N), point_group=G, method="cubochoric").data
+    if a.data.shape != b.shape or not np.array_equal(a.data, b):
+        fail(f"fund-call-form:semi_edge_steps:{name}", f"semi_edge_steps={N} gives {a.size} rotations, the resolution "
+             f"{cubo_res_of(N):.3f} of that step count {b.shape[0]}", rep)
+    so3_sample_checks(a.data.reshape(-1, 4), G.data.reshape(-1, 4), "cubochoric", cubo_res_of(N),
+                      lambda c, nm=name: f"{c}:cubochoric:semi_edge_steps:{nm}", rep, mkey="cover/semi_edge_steps")
+    sg = [1, 75, 16, 195][k]     # a space group of ANOTHER point group: point_group wins
+    m = METHODS[k % 3]
+    a = get_sample_fundamental(15.0, point_group=G, space_group=sg, method=m).data
+    b = get_sample_fundamental(15.0, point_group=G, method=m).data
+    if a.shape != b.shape or not np.array_equal(a, b):
+        fail(f"fund-call-form:point-and-space-group:{m}", f"with point_group={name} and space_group={sg} the sample is not "
+             f"that of the point group", {"call": f"get_sample_fundamental(15.0, point_group={name}, space_group={sg}, method={m!r})"})
+
+# ---- (D) a point group with improper operations (the docstring's own example passes Oh): the zone of orientations is that
+# of its rotations, i.e. of the proper subgroup -- inside that zone, no duplicates, and the same sample
+IMPROPER = [G for G in S._groups if not G.is_proper]
+for i, G in enumerate(IMPROPER):
+    method = METHODS[i % 3]
+    Pp = G.proper_subgroup
+    rot = get_sample_fundamental(15.0, point_group=G, method=method)
+    st(f"oracle/fund-improper-group/{method}")
+    rep = {"call": f"get_sample_fundamental(15.0, point_group={G.name}, method={method!r})", "proper_subgroup": Pp.name}
+    g = G.data.reshape(-1, 4)[~np.asarray(G.improper).ravel()]
+    so3_sample_checks(rot.data.reshape(-1, 4), g, method, so3_cell(method, 15.0),
+                      lambda c, m=method, nm=G.name: f"{c}:{m}:improper-group:{nm}", rep, cover=(i % 4 == 0),
+                      mkey="cover/improper-group")
+    ref = get_sample_fundamental(15.0, point_group=Pp, method=method).data
+    if ref.shape != rot.data.shape or not np.allclose(ref, rot.data, atol=1e-12):
+        fail(f"improper-group-entry:{method}:{G.name}", f"the sample for {G.name} ({rot.size} rotations) differs from the "
+             f"sample for its proper subgroup {Pp.name} ({ref.shape[0]} rotations)", rep)
+
+# ---- (E) get_sample_local: wide widths (the main loop stops at 35 deg), width = resolution, integer arguments, method
+# omitted, semi_edge_steps=, a centre with negative scalar part, and "centre^-1 * sample = the sample without centre"
+LOC2 = [(15.0, 90.0), (12.0, 170.0), (20.0, 180.0), (15.0, 250.0), (10.0, 10.0), (8, 20), (9.0, 60.0)]
+for k, (res, gw) in enumerate(LOC2):
+    for mi, method in enumerate(METHODS):
+        cq = randq(1)
+        if ((k + mi) % 2 == 1) == (cq[0, 0] > 0):
+            cq = -cq      # the scalar part of the centre alternates in sign
+        center = Rotation(cq)
+        rot = get_sample_local(res, center=center, grid_width=gw, method=method)
+        plain = get_sample_local(res, grid_width=gw, method=method)
+        st(f"oracle/local-wide/{method}")
+        rep = {"call": f"get_sample_local({res}, center={cq[0].tolist()}, grid_width={gw}, method={method!r})"}
+        q = rot.data.reshape(-1, 4)
+        p0 = plain.data.reshape(-1, 4)
+        if q.shape[0] == 0:
+            if p0.shape[0]:
+                fail(f"local:centre-drops:{method}", "empty with a centre, non-empty without", rep)
+            continue
+        rel = qmul(qconj(cq), q)
+        for what, r in (("with centre", rel), ("without centre", p0)):
+            ang = np.degrees(2 * np.arccos(np.clip(np.abs(r[:, 0]), 0, 1)))
+            i = int(np.argmax(ang))
+            if ang[i] > gw + 1e-6:
+                fail(f"local:angle:{method}", f"local sample ({what}) {ang[i]:.3f} deg from its centre, grid_width {gw}",
+                     dict(rep, q=(q if r is rel else p0)[i].tolist()))
+        if rel.shape != p0.shape or np.abs(np.abs(np.sum(rel * p0, axis=1)) - 1).max() > 1e-9:
+            fail(f"local:centre-composition:{method}", f"centre^-1 * (sample about the centre) is not the sample about the "
+                 f"identity, row by row ({rel.shape[0]} / {p0.shape[0]} rows)", rep)
+        if q.shape[0] > 1:
+            tree = cKDTree(np.vstack([q, -q]))
+            d, _ = tree.query(q, k=2)
+            if chord2angle(d[:, 1].min()) < 1e-4:
+                fail(f"local:dup:{method}", "two returned local rotations coincide", rep)
+st("oracle/local-call-forms", 3)
+a = get_sample_local(10.0, grid_width=40.0).data
+b = get_sample_local(10.0, grid_width=40.0, method="cubochoric").data
+if a.shape != b.shape or not np.array_equal(a, b):
+    fail("local-call-form:default-method", "method omitted differs from method='cubochoric'",
+         {"call": "get_sample_local(10.0, grid_width=40.0)"})
+a = get_sample_local(55.0, grid_width=40.0, semi_edge_steps=13).data
+if a.shape != b.shape or not np.array_equal(a, b):
+    fail("local-call-form:semi_edge_steps", f"semi_edge_steps=13 (= resolution 10) gives {a.shape[0]} rotations, "
+         f"resolution 10 gives {b.shape[0]}", {"call": "get_sample_local(55.0, grid_width=40.0, semi_edge_steps=13)"})
+a = get_sample_local(10.0, None, 40.0, "cubochoric").data
+if a.shape != b.shape or not np.array_equal(a, b):
+    fail("local-call-form:positional", "positional arguments differ from keywords",
+         {"call": "get_sample_local(10.0, None, 40.0, 'cubochoric')"})
+
+
+# ---- (F) S2: keyword paths (hemisphere, offset, remove_pole_duplicates), the public per-method functions and their
+# defaults, method omitted, coarse / non-integer / integer resolutions
+def s2_cover_check(v, m, res, bound_c, sig, rep, want=None, mkey=None):
+    """unit norm + covering radius of the probes (restricted by `want`) <= bound_c x s2_cell"""
+    if v.shape[0] == 0:
+        fail(sig + ":empty", "S2 sample is empty", rep)
+        return
+    if np.abs(np.linalg.norm(v, axis=1) - 1).max() > 1e-12:
+        fail(sig + ":unit", "S2 sample is not a unit vector", rep)
+    tree = cKDTree(v)
+    for stratum, Pv in sprobes:
+        if want is not None:
+            Pv = Pv[want(Pv)]
+            if not len(Pv):
+                continue
+        d, _ = tree.query(Pv)
+        ang = np.degrees(2 * np.arcsin(np.clip(d / 2, 0, 1)))
+        i = int(np.argmax(ang))
+        if mkey:
+            measured[mkey] = max(measured.get(mkey, 0), float(ang[i] / s2_cell(m, res)))
+        if ang[i] > bound_c * s2_cell(m, res):
+            fail(sig + ":cover", f"direction (stratum {stratum}) is {ang[i]:.3f} deg from the nearest mesh point: more than "
+                 f"{bound_c:.2f} x the nominal cell {s2_cell(m, res):.2f} deg at resolution {res}", dict(rep, probe=Pv[i].tolist()))
+            break
+
+
+HEMI = {"upper": lambda Pv: Pv[:, 2] >= 0, "lower": lambda Pv: Pv[:, 2] <= 0, "both": None}
+k = 0
+for m in ("uv", "equal_area"):
+    for res in [10.0, 7.3, 4.0]:
+        for hemi in ("upper", "lower", "both", "UPPER"):
+            offs = [None] if m == "equal_area" else [None, [0.5, 0.25, 0.9][k % 3]]
+            k += 1
+            for off in offs:
+                kw = {"hemisphere": hemi}
+                if off is not None:
+                    kw["offset"] = off
+                v = sample_S2(res, method=m, **kw).data.reshape(-1, 3)
+                st(f"oracle/s2-keywords/{m}")
+                rep = {"call": f"sample_S2({res}, method={m!r}, " + ", ".join(f"{a}={b!r}" for a, b in kw.items()) + ")"}
+                h = hemi.lower()
+                if h == "upper" and v[:, 2].min() < -1e-12 or h == "lower" and v[:, 2].max() > 1e-12:
+                    fail(f"s2:hemisphere:{m}:{h}", f"a vector of the {h} hemisphere mesh lies in the other hemisphere", rep)
+                # with an offset the polar rows are at (k + offset) steps: a pole is max(offset, 1 - offset) steps from
+                # the nearest row; the rim of a hemisphere mesh too, and a rim direction can lie half an azimuth step
+                # aside as well (measured: 0.90 / 0.98 of the resolution)
+                c = S2_C[m]
+                if off is not None:
+                    o = max(off, 1 - off)
+                    c = max(S2_C[m], (o if h == "both" else math.sqrt(o * o + 0.25)) + 0.03)
+                s2_cover_check(v, m, res, c, f"s2:keywords:{m}:{h}" + (":offset" if off is not None else ""), rep,
+                               want=HEMI[h], mkey=f"s2cover/keywords/{m}/{h}" + ("/offset" if off is not None else ""))
+    for res in [10.0, 4.0]:
+        full = sample_S2(res, method=m, remove_pole_duplicates=False)
+        st(f"oracle/s2-keywords/{m}")
+        rep = {"call": f"sample_S2({res}, method={m!r}, remove_pole_duplicates=False)"}
+        v = full.data.reshape(-1, 3)
+        ref = sample_S2(res, method=m).data.reshape(-1, 3)
+        if full.ndim != 2:
+            fail(f"s2:pole-duplicates:{m}", f"remove_pole_duplicates=False returns shape {full.shape}, not the 2-D grid", rep)
+        d1, _ = cKDTree(ref).query(v)
+        d2, _ = cKDTree(v).query(ref)
+        if max(d1.max(), d2.max()) > 1e-9 or np.abs(np.linalg.norm(v, axis=1) - 1).max() > 1e-12:
+            fail(f"s2:pole-duplicates:{m}", "the grid with pole duplicates is not the same set of unit vectors as the mesh "
+                 "without them", rep)
+        # the default mesh has each pole once
+        for pole in (1.0, -1.0):
+            n = int(np.sum(np.abs(ref[:, 2] - pole) < 1e-12))
+            if n != 1:
+                fail(f"s2:pole-duplicates:{m}", f"the mesh contains the pole z = {pole} {n} times", rep)
+
+DIRECT = [("uv", lambda r: sample_S2_uv_mesh(r), "sample_S2_uv_mesh(r)"),
+          ("equal_area", lambda r: sample_S2_equal_area_mesh(r), "sample_S2_equal_area_mesh(r)"),
+          ("normalized_cube", lambda r: sample_S2_cube_mesh(r, "normalized"), "sample_S2_cube_mesh(r, 'normalized')"),
+          ("normalized_cube", lambda r: sample_S2_cube_mesh(r, grid_type="Normalized"), "sample_S2_cube_mesh(r, grid_type='Normalized')"),
+          ("spherified_cube_edge", lambda r: sample_S2_cube_mesh(r, grid_type="spherified_edge"), "sample_S2_cube_mesh(r, grid_type='spherified_edge')"),
+          ("spherified_cube_corner", lambda r: sample_S2_cube_mesh(r, grid_type="spherified_corner"), "sample_S2_cube_mesh(r, grid_type='spherified_corner')"),
+          ("spherified_cube_corner", lambda r: sample_S2_cube_mesh(r), "sample_S2_cube_mesh(r)"),
+          ("icosahedral", lambda r: sample_S2_icosahedral_mesh(r), "sample_S2_icosahedral_mesh(r)"),
+          ("hexagonal", lambda r: sample_S2_hexagonal_mesh(r), "sample_S2_hexagonal_mesh(r)"),
+          ("spherified_cube_edge", lambda r: sample_S2(r), "sample_S2(r)"),
+          ("uv", lambda r: sample_S2(r, "uv"), "sample_S2(r, 'uv')")]
+for k, (m, fn, txt) in enumerate(DIRECT):
+    res = [10.0, 7.3, 4.0][k % 3]
+    a = fn(res).data
+    b = sample_S2(res, method=m).data
+    st("oracle/s2-direct-entry")
+    if a.shape != b.shape or not np.array_equal(a, b):
+        fail(f"s2:direct-entry:{m}", f"{txt} with r = {res} differs from sample_S2(r, method={m!r}) "
+             f"({a.reshape(-1, 3).shape[0]} / {b.reshape(-1, 3).shape[0]} vectors)", {"call": txt.replace("(r", f"({res}")})
+
+# coarse, non-integer and integer-typed resolutions (step counts: hexagonal n odd -> even and already even, cube grids
+# with 1-3 steps, icosahedron n = 2, 3, 4); same constants S2_C (measured: at most 0.70, see s2cover/more-resolutions/*)
+for mi, m in enumerate(S2M):
+    for ri, res in enumerate([45.0, 30, 22.5, 17.0, 7.3, 3, 2.9]):
+        if TIER == "quick" and ri >= 4 and (mi + ri) % 2:
+            continue
+        v = sample_S2(res, method=m).data.reshape(-1, 3)
+        st(f"oracle/s2-more-resolutions/{m}")
+        rep = {"call": f"sample_S2({res!r}, method={m!r})"}
+        s2_cover_check(v, m, float(res), S2_C[m], f"s2:more-resolutions:{m}", rep,
+                       mkey=f"s2cover/more-resolutions/{m}/res={res}")
+        if isinstance(res, int):
+            b = sample_S2(float(res), method=m).data.reshape(-1, 3)
+            if b.shape != v.shape or not np.array_equal(b, v):
+                fail(f"s2:int-resolution:{m}", f"integer resolution {res} gives a mesh different from {float(res)}", rep)
+
+
+# ---- (G) reduced fundamental sample with an EXPLICIT S2 method (the block above uses the per-system default only), every
+# method meeting every crystal system; point_group omitted; resolution omitted; R z computed here from the quaternion
+def rz(q):
+    a, b, c, d = q.T
+    return np.stack([2 * (b * d + a * c), 2 * (c * d - a * b), a * a - b * b - c * c + d * d], 1)
+
+
+def reduced_checks(rot, G, m, res, sig, rep, cover_c, mkey):
+    q = rot.data.reshape(-1, 4)
+    if q.shape[0] == 0:
+        fail(sig("empty"), "reduced fundamental sample is empty", rep)
+        return
+    if rot.ndim != 1:
+        fail(sig("shape"), f"reduced sample has shape {rot.shape}, not 1-D", rep)
+    if np.abs(np.linalg.norm(q, axis=1) - 1).max() > 1e-9:
+        fail(sig("unit"), "reduced sample is not a unit quaternion", rep)
+    vz = rz(q)
+    nrm = G.fundamental_sector.data.reshape(-1, 3)
+    mesh = sample_S2(res, method=m).data.reshape(-1, 3)
+    keep = np.all(mesh @ nrm.T > -1e-9, axis=1) if len(nrm) else np.ones(len(mesh), bool)
+    ref = mesh[keep]
+    if ref.shape != vz.shape or np.abs(ref - vz).max() > 1e-9:
+        err = float("nan") if ref.shape != vz.shape else float(np.abs(ref - vz).max())
+        fail(sig("exact"), f"R * z differs from the sector's mesh directions ({vz.shape[0]} / {ref.shape[0]} directions, "
+             f"max err {err:.3g})", rep)
+    if len(nrm) and (vz @ nrm.T).min() < -1e-8:
+        fail(sig("inside"), "R * z lies outside the fundamental sector", rep)
+    if np.abs(q[:, 0] * q[:, 2] - q[:, 1] * q[:, 3]).max() > 1e-9:
+        fail(sig("phi1"), "first Euler angle of a reduced sample is not 0", rep)
+    Pv = sprobes[0][1]
+    inside = np.all(Pv @ nrm.T > 0, axis=1) if len(nrm) else np.ones(len(Pv), bool)
+    if inside.any():
+        d, _ = cKDTree(vz).query(Pv[inside])
+        ang = np.degrees(2 * np.arcsin(np.clip(d / 2, 0, 1)))
+        measured[mkey] = max(measured.get(mkey, 0), float(ang.max() / s2_cell(m, res)))
+        if ang.max() > cover_c * s2_cell(m, res):
+            fail(sig("cover"), f"sector direction {ang.max():.3f} deg (> {cover_c} x the nominal cell {s2_cell(m, res):.2f}) "
+                 f"from the nearest R * z", dict(rep, probe=Pv[inside][int(np.argmax(ang))].tolist()))
+
+
+for gi, G in enumerate(S._groups):
+    for k in ((0, 3) if TIER == "quick" else range(7)):
+        m = S2M[(gi + k) % 7]
+        res = [6.0, 9.0][(gi + k) % 2]
+        rot = get_sample_reduced_fundamental(res, method=m, point_group=G)
+        st(f"oracle/reduced-method/{m}")
+        reduced_checks(rot, G, m, res, lambda c, nm=G.name, mm=m: f"reduced:{c}:{nm}:method={mm}",
+                       {"call": f"get_sample_reduced_fundamental({res}, method={m!r}, point_group={G.name})"}, 1.0,
+                       f"reduced-cover/method={m}")
+st("oracle/reduced-call-forms", 4)
+rot = get_sample_reduced_fundamental(6.0)
+reduced_checks(rot, S.C1, "icosahedral", 6.0, lambda c: f"reduced:{c}:point-group-omitted",
+               {"call": "get_sample_reduced_fundamental(6.0)"}, 1.0, "reduced-cover/point-group-omitted")
+if rot.size != sample_S2(6.0, method="icosahedral").size:
+    fail("reduced:exact:point-group-omitted", "without a point group the reduced sample is not the whole icosahedral mesh",
+         {"call": "get_sample_reduced_fundamental(6.0)"})
+rot = get_sample_reduced_fundamental(9.0, "uv")
+reduced_checks(rot, S.C1, "uv", 9.0, lambda c: f"reduced:{c}:point-group-omitted",
+               {"call": "get_sample_reduced_fundamental(9.0, 'uv')"}, 1.0, "reduced-cover/point-group-omitted")
+for G in (S.Oh, S.D6):
+    a = get_sample_reduced_fundamental(point_group=G).data
+    b = get_sample_reduced_fundamental(2, point_group=G).data
+    c = get_sample_reduced_fundamental(2.0, None, G).data
+    if a.shape != b.shape or not np.array_equal(a, b) or c.shape != b.shape or not np.array_equal(c, b):
+        fail(f"reduced:default-resolution:{G.name}", "resolution omitted / positional arguments differ from resolution = 2",
+             {"call": f"get_sample_reduced_fundamental(point_group={G.name})"})
 
 emit({"cases": cases, "fails": fails, "strata": strata, "measured": measured})
